@@ -70,16 +70,16 @@ structure EntState where
 def entErr (code : Nat) : Err := .err "enterprise" code
 
 /-- `Coin.Add` : panics on different denominations -/
-def coinAdd (a b : Coin) : M Coin :=
-  if a.denom ≠ b.denom then throw (.panic s!"invalid coin denominations; {a.denom}, {b.denom}")
-  else if !fitsInt256 (a.amt + b.amt) then throw (.panic "Int overflow")
-  else pure { a with amt := a.amt + b.amt }
+def coinAdd (a b : Coin) : M Coin := do
+  require (a.denom = b.denom) (.panic s!"invalid coin denominations; {a.denom}, {b.denom}")
+  require (fitsInt256 (a.amt + b.amt)) (.panic "Int overflow")
+  pure { a with amt := a.amt + b.amt }
 
 /-- `Coin.Sub` : panics on different denominations or a negative result -/
-def coinSub (a b : Coin) : M Coin :=
-  if a.denom ≠ b.denom then throw (.panic s!"invalid coin denominations; {a.denom}, {b.denom}")
-  else if a.amt - b.amt < 0 then throw (.panic "negative coin amount")
-  else pure { a with amt := a.amt - b.amt }
+def coinSub (a b : Coin) : M Coin := do
+  require (a.denom = b.denom) (.panic s!"invalid coin denominations; {a.denom}, {b.denom}")
+  require (0 ≤ a.amt - b.amt) (.panic "negative coin amount")
+  pure { a with amt := a.amt - b.amt }
 
 namespace EntState
 
@@ -99,10 +99,10 @@ def isAuthorised (e : EntState) (a : Addr) : Bool := e.params.signerAddrs.contai
 
 /-- message server `UndPurchaseOrder`; returns the new order id -/
 def raise (e : EntState) (nowSec : Nat) (purchaser : AddrTok) (denom : String) (amt : Int) : M (EntState × Nat) := do
-  let acc ← match purchaser.decode with | some a => pure a | none => throw eInvalidAddress
-  if denom ≠ e.params.denom then throw (entErr 7)
-  if !(0 < amt) then throw (entErr 1)
-  if !e.whitelist.contains acc then throw (entErr 10)
+  let acc ← purchaser.decodeM
+  require (denom = e.params.denom) (entErr 7)
+  require (0 < amt) (entErr 1)
+  require (e.whitelist.contains acc) (entErr 10)
   let id := e.nextId
   let po : PO := { id := id, purchaser := purchaser, denom := denom, amt := amt, status := stRaised,
                    raiseTime := nowSec, completionTime := 0, decisions := [] }
@@ -110,38 +110,44 @@ def raise (e : EntState) (nowSec : Nat) (purchaser : AddrTok) (denom : String) (
                  raisedQ := insertSortedNat id e.raisedQ
                  nextId := addU64 id 1 }, id)
 
+def findOrder (e : EntState) (id : Nat) : M PO :=
+  match AL.find? e.orders id with
+  | some po => .ok po
+  | none => .error (entErr 2)
+
+/-- has the address `signer` (spelled `signerT` in the message) already decided this order? -/
+def alreadyDecided (po : PO) (signerT : AddrTok) (signer : Addr) : Bool :=
+  po.decisions.any (fun d => signerT = d.signer || d.signer.decode = some signer)
+
 /-- message server `ProcessUndPurchaseOrder` -/
 def decide_ (e : EntState) (nowSec : Nat) (poId : Nat) (decision : Nat) (signerT : AddrTok) : M EntState := do
-  let signer ← match signerT.decode with | some a => pure a | none => throw eInvalidAddress
-  if !e.isAuthorised signer then throw eUnauthorized
-  match AL.find? e.orders poId with
-  | none => throw (entErr 2)
-  | some po =>
-    if !validAcceptReject decision then throw (entErr 5)
-    if po.status = stNil then throw (entErr 4)
-    if po.status ≠ stRaised then throw (entErr 3)
-    -- duplicate check: same string, or the stored signer decodes to the same address
-    if po.decisions.any (fun d => signerT = d.signer ∨ d.signer.decode = some signer) then throw (entErr 9)
-    let d : Decision := { signer := AddrTok.canon signer, decision := decision, time := nowSec }
-    let po' := { po with decisions := po.decisions ++ [d] }
-    pure { e with orders := AL.insert e.orders poId po' }
+  let signer ← signerT.decodeM
+  require (e.isAuthorised signer) eUnauthorized
+  let po ← e.findOrder poId
+  require (validAcceptReject decision) (entErr 5)
+  require (po.status ≠ stNil) (entErr 4)
+  require (po.status = stRaised) (entErr 3)
+  require (!alreadyDecided po signerT signer) (entErr 9)
+  let d : Decision := { signer := AddrTok.canon signer, decision := decision, time := nowSec }
+  pure { e with orders := AL.insert e.orders poId { po with decisions := po.decisions ++ [d] } }
 
 /-- message server `WhitelistAddress` -/
 def whitelistMsg (e : EntState) (action : Nat) (addrT signerT : AddrTok) : M EntState := do
-  let signer ← match signerT.decode with | some a => pure a | none => throw eInvalidAddress
-  let addr ← match addrT.decode with | some a => pure a | none => throw eInvalidAddress
-  if !e.isAuthorised signer then throw eUnauthorized
-  if !validWlAction action then throw (entErr 5)
-  if action = wlAdd then
-    if e.whitelist.contains addr then throw (entErr 11)
+  let signer ← signerT.decodeM
+  let addr ← addrT.decodeM
+  require (e.isAuthorised signer) eUnauthorized
+  require (validWlAction action) (entErr 5)
+  if action = wlAdd then do
+    require (!e.whitelist.contains addr) (entErr 11)
     pure { e with whitelist := insertSortedNat addr e.whitelist }
-  else
-    if !e.whitelist.contains addr then throw (entErr 12)
+  else do
+    require (e.whitelist.contains addr) (entErr 12)
     pure { e with whitelist := e.whitelist.filter (· ≠ addr) }
 
 /-- `SetParams` -/
-def setParams (e : EntState) (p : EntParams) : M EntState :=
-  if p.validate then pure { e with params := p } else throw (.err "undefined" 1)
+def setParams (e : EntState) (p : EntParams) : M EntState := do
+  require p.validate (.err "undefined" 1)
+  pure { e with params := p }
 
 /-- the tally rule for one order: `none` = stays raised -/
 def tallyDecision (p : EntParams) (nowSec : Nat) (po : PO) : Option Nat :=
@@ -155,19 +161,22 @@ def tallyDecision (p : EntParams) (nowSec : Nat) (po : PO) : Option Nat :=
   else if numAccepts ≥ minAcc then some stAccepted
   else none
 
+/-- the tally applied to one queued order id -/
+def tallyOne (e : EntState) (nowSec : Nat) (id : Nat) : M EntState :=
+  match AL.find? e.orders id with
+  | none => .error (.panic "purchase order not found!")
+  | some po =>
+    if po.status ≠ stRaised then .error (.panic "purchase order status is not raised!")
+    else match tallyDecision e.params nowSec po with
+      | none => .ok e
+      | some st =>
+        let e1 := { e with orders := AL.insert e.orders id { po with status := st, completionTime := nowSec }
+                           raisedQ := e.raisedQ.filter (· ≠ id) }
+        .ok (if st = stAccepted then { e1 with acceptedQ := insertSortedNat id e1.acceptedQ } else e1)
+
 /-- `TallyPurchaseOrderDecisions` -/
 def tally (e : EntState) (nowSec : Nat) : M EntState :=
-  e.raisedQ.foldlM (fun (e : EntState) (id : Nat) => do
-    match AL.find? e.orders id with
-    | none => throw (.panic "purchase order not found!")
-    | some po =>
-      if po.status ≠ stRaised then throw (.panic "purchase order status is not raised!")
-      match tallyDecision e.params nowSec po with
-      | none => pure e
-      | some st =>
-        let po' := { po with status := st, completionTime := nowSec }
-        let e1 := { e with orders := AL.insert e.orders id po', raisedQ := e.raisedQ.filter (· ≠ id) }
-        if st = stAccepted then pure { e1 with acceptedQ := insertSortedNat id e1.acceptedQ } else pure e1) e
+  e.raisedQ.foldlM (fun (e : EntState) (id : Nat) => e.tallyOne nowSec id) e
 
 end EntState
 
@@ -185,45 +194,47 @@ def incrementLocked (x : EB) (a : Addr) (amount : Coin) : M EB := do
   pure { x with ent := { x.ent with locked := AL.insert x.ent.locked a l, totalLocked := t } }
 
 /-- `MintCoinsAndLock` -/
-def mintAndLock (x : EB) (nowSec : Int) (blocked : Addr → Bool) (recipient : Addr) (amount : Coin) : M EB := do
-  if amount.amt = 0 then return x
-  -- sdk.NewCoins(amount) panics on an invalid coin
-  if amount.amt < 0 || !validDenom amount.denom then throw (.panic "invalid coin")
-  let coins : Coins := [amount]
-  let bank ← x.bank.mint Ment coins
-  if blocked recipient then throw eUnauthorized
-  let bank ← bank.sendCoins nowSec Ment recipient coins
-  let bank ← bank.delegate nowSec recipient Ment coins
-  incrementLocked { x with bank := bank } recipient amount
+def mintAndLock (x : EB) (nowSec : Int) (blocked : Addr → Bool) (recipient : Addr) (amount : Coin) : M EB :=
+  if amount.amt = 0 then .ok x else do
+    -- sdk.NewCoins(amount) panics on an invalid coin
+    require (0 ≤ amount.amt && validDenom amount.denom) (.panic "invalid coin")
+    let bank ← x.bank.mint Ment [amount]
+    require (!blocked recipient) eUnauthorized
+    let bank ← bank.sendCoins nowSec Ment recipient [amount]
+    let bank ← bank.delegate nowSec recipient Ment [amount]
+    incrementLocked { x with bank := bank } recipient amount
+
+/-- every error of the minting step is a panic of `BeginBlock` -/
+def asPanic {α : Type} : M α → M α
+  | .ok v => .ok v
+  | .error (.panic w) => .error (.panic w)
+  | .error (.err cs c) => .error (.panic s!"{cs}:{c}")
+
+/-- completion of one accepted order -/
+def completeOne (x : EB) (nowSec : Int) (blocked : Addr → Bool) (id : Nat) : M EB :=
+  match AL.find? x.ent.orders id with
+  | none => .error (.panic "purchase order not found!")
+  | some po =>
+    if po.status ≠ stAccepted then .error (.panic "purchase order status is not accepted!")
+    else match po.purchaser.decode with
+      | none => .error (.panic "decoding bech32 failed")
+      | some purchaser => do
+        let x1 : EB := { x with ent := { x.ent with orders := AL.insert x.ent.orders id { po with status := stCompleted } } }
+        let x2 ← asPanic (mintAndLock x1 nowSec blocked purchaser { denom := po.denom, amt := po.amt })
+        pure { x2 with ent := { x2.ent with acceptedQ := x2.ent.acceptedQ.filter (· ≠ id) } }
 
 /-- `ProcessAcceptedPurchaseOrders` : every error is a panic of `BeginBlock` -/
 def processAccepted (x : EB) (nowSec : Int) (blocked : Addr → Bool) : M EB :=
-  x.ent.acceptedQ.foldlM (fun (x : EB) (id : Nat) => do
-    match AL.find? x.ent.orders id with
-    | none => throw (.panic "purchase order not found!")
-    | some po =>
-      if po.status ≠ stAccepted then throw (.panic "purchase order status is not accepted!")
-      let po' := { po with status := stCompleted }
-      let x1 : EB := { x with ent := { x.ent with orders := AL.insert x.ent.orders id po' } }
-      let purchaser ← match po.purchaser.decode with
-        | some a => pure a
-        | none => throw (.panic "decoding bech32 failed")
-      let x2 ← match mintAndLock x1 nowSec blocked purchaser { denom := po.denom, amt := po.amt } with
-        | .ok v => pure v
-        | .error (.panic w) => throw (.panic w)
-        | .error (.err cs c) => throw (.panic s!"{cs}:{c}")
-      pure { x2 with ent := { x2.ent with acceptedQ := x2.ent.acceptedQ.filter (· ≠ id) } }) x
+  x.ent.acceptedQ.foldlM (fun (x : EB) (id : Nat) => completeOne x nowSec blocked id) x
 
 /-- `decrementLockedUnd` (with its saturating branches) -/
 def decrementLocked (x : EB) (a : Addr) (amount : Coin) : M EB := do
   let l := x.ent.lockedOf a
   let zero : Coin := { denom := x.ent.params.denom, amt := 0 }
-  let (_, neg) := Coins.safeSub (Coins.ofCoin l) (Coins.ofCoin amount)
-  let l' ← if neg then pure zero else coinSub l amount
-  let ent1 := { x.ent with locked := AL.insert x.ent.locked a l' }
-  let (_, negT) := Coins.safeSub (Coins.ofCoin ent1.totalLocked) (Coins.ofCoin amount)
-  let t' ← if negT then pure zero else coinSub ent1.totalLocked amount
-  pure { x with ent := { ent1 with totalLocked := t' } }
+  let l' ← (if (Coins.safeSub (Coins.ofCoin l) (Coins.ofCoin amount)).2 then .ok zero else coinSub l amount)
+  let t' ← (if (Coins.safeSub (Coins.ofCoin x.ent.totalLocked) (Coins.ofCoin amount)).2 then .ok zero
+            else coinSub x.ent.totalLocked amount)
+  pure { x with ent := { x.ent with locked := AL.insert x.ent.locked a l', totalLocked := t' } }
 
 /-- `incrementSpentEFUND` -/
 def incrementSpent (x : EB) (a : Addr) (amount : Coin) : M EB := do
@@ -234,25 +245,21 @@ def incrementSpent (x : EB) (a : Addr) (amount : Coin) : M EB := do
 /-- `UnlockCoinsForFees(feePayer, feesToPay)` -/
 def unlockForFees (x : EB) (nowSec : Int) (payer : Addr) (fees : Coins) : M EB := do
   let lockedUnd := x.ent.lockedOf payer
-  let lockedCoins := Coins.ofCoin lockedUnd
   let d := x.ent.params.denom
   let feeNund : Coin := { denom := d, amt := Coins.amountOf fees d }
   -- `_, feeToPay := feesToPay.Find(denom)` : the zero-value Coin (nil amount) when absent ⇒ nil dereference
-  if !(fees.any (·.denom = d)) then throw (.panic "nil pointer dereference")
-  let feeToPay : Coins := [feeNund]
-  let (_, neg) := Coins.safeSub lockedCoins feeToPay
-  if !neg then
+  require (fees.any (·.denom = d)) (.panic "nil pointer dereference")
+  if !(Coins.safeSub (Coins.ofCoin lockedUnd) [feeNund]).2 then do
+    -- locked ≥ fee : undelegate the whole fee coin set
     let bank ← x.bank.undelegate nowSec Ment payer fees
     let x1 ← decrementLocked { x with bank := bank } payer feeNund
     incrementSpent x1 payer feeNund
-  else
-    let potentially := Coins.add (x.bank.spendable nowSec payer) lockedCoins
-    let (_, neg2) := Coins.safeSub potentially feeToPay
-    if !neg2 then
-      let bank ← x.bank.undelegate nowSec Ment payer lockedCoins
-      let x1 ← decrementLocked { x with bank := bank } payer lockedUnd
-      incrementSpent x1 payer lockedUnd
-    else pure x
+  else if !(Coins.safeSub (Coins.add (x.bank.spendable nowSec payer) (Coins.ofCoin lockedUnd)) [feeNund]).2 then do
+    -- spendable + locked ≥ fee : unlock everything that is locked
+    let bank ← x.bank.undelegate nowSec Ment payer (Coins.ofCoin lockedUnd)
+    let x1 ← decrementLocked { x with bank := bank } payer lockedUnd
+    incrementSpent x1 payer lockedUnd
+  else pure x
 
 end EB
 end Mainchain
